@@ -216,7 +216,9 @@ def replay_states(states, seed):
 
 # ---------------------------------------------------------------------------------- code -> spec ----------------
 RX_PIECES = ['ALFA', 'STORE', 'BETA', 'Q', 'X', ' ', '\\s', '\\s+', '\\s*', '\\d', '\\d+', '\\w+', '.', '.*', '\\.', '\\b', '(?!X)', '(?! STORE)',
-             '"', "'", '#', '-', '12', '9', 'x?', 'A+', '\\-', '\\#', '\\"']
+             '"', "'", '#', '-', '12', '9', 'x?', 'A+', '\\-', '\\#', '\\"',
+             # the complements: an escape is case-sensitive (\\D is not \\d) although letters match case-insensitively
+             '\\D', '\\D+', '\\W+', '\\S+', '\\S', '\\B', '\\W']
 WILD_PATTERNS = ['[A-Z]+ STORE', 'ALFA|BETA', '(ALFA)\\s+\\1', 'AL(?=FA)', '(?:ALFA|BETA)\\.?STORE', 'ST[AO]RE', '\\bALFA\\b.*\\d{2}', '^\\w{4}\\s',
                  'STORE\\s#?\\d+', 'A{2}', '(?i)alfa', 'ALFA\\\\', 'Q"', "O\\'K", '\\"Q\\"', 'ALFA\\tSTORE', '\\x41LFA', 'ALFA [0-9]+', 'ALFA$|ZULU',
                  '(?<!X)ALFA', '\\S+', '[^A]LFA', '\\D+', 'ALFA\\Z', '\\AALFA', 'É', 'ß', 'STRASSE', 'alfa']
